@@ -56,6 +56,44 @@ CLAIMED = {
               "representation of seeded instants 1970..2100 x offsets with the model."),
         design="6/C17", technique="Lean 4 proof (kernel tables + omega) on a model partly regenerated from source + correspondence",
         note=PROOF_NOTE + " Not shown: Python's string<->field parsing/formatting (exercised only), float rounding of non-dyadic epoch seconds."),
+    "C01": dict(
+        text=("Lean 4 theorems over the generic (ordered-field) model of frequency_moment: closed form as a sum over "
+              "non-negative atoms of the selected nodes; linear in the variance density (scale, sum under equal NaN masks; "
+              "the one-sided-NaN counterexample is recorded); periods scale invariant, Hm0 scales with sqrt(c) (ℝ); "
+              "Cauchy-Schwarz m1^2 <= m0 m2 hence Tm02 <= Tm01; 1/f_last <= Tm02 <= Tm01 <= 1/f_first over the band; all for "
+              "every strictly increasing grid, band, NaN pattern, power. Correspondence: frequency_moment of 1D/2D spectra in "
+              "four dims layouts x 8 bands x powers 0..4 against the exact rational value of the model, plus the "
+              "defining expressions and laws checked on the implementation."),
+        design="6/C01", technique="Lean 4 proof over ordered fields (list induction, Cauchy-Schwarz) + exact-rational correspondence",
+        note=PROOF_NOTE + " Not shown: float rounding; that xarray's integrate is the trapezoid (assumed, exercised)."),
+    "C02": dict(
+        text=("Lean 4 theorems: wrapped_difference returns the representative modulo the period in [d-P, d); for every grid "
+              "covering the circle (all cyclic gaps in (0,180), any start, uniform or not) the bin widths are the cyclic "
+              "gaps, positive, summing to 360 (and a gap >= 180 gives a non-positive width); for non-negative densities "
+              "with e(f) > 0 every directional moment is defined with magnitude <= 1 and a^2+b^2 <= 1 (Cauchy-Schwarz with "
+              "c^2+s^2=1); e(f)=0 gives undefined moments; the numba double sum is the same quadrature. Correspondence: "
+              "direction_step, frequency_step, e, a1..b2 per row against exact rationals (numpy trig tables as inputs), "
+              "as_frequency_spectrum metadata and 2D-vs-1D bulk parameters on the implementation."),
+        design="6/C02", technique="Lean 4 proof (floor/modular arithmetic over ordered fields, Cauchy-Schwarz) + exact-rational correspondence",
+        note=PROOF_NOTE + " Not shown: accuracy of numpy cos/sin; 2D->1D preservation is definitional in the model (both read e(f) through the same function) and tied by the implementation oracle."),
+    "C03": dict(
+        text=("Lean 4 theorems at ℝ: direction = arg(A+iB) in degrees lies in (-180,180]; spread in [0, sqrt2*180/pi] < 81.03 "
+              "for moments in the unit disc; on every uniform grid (any N, theta0) rotating the spectrum by any k bins keeps "
+              "e(f) and rotates the m-th harmonic moments by m*k*dtheta (re-indexing over Fin N + angle addition), so the "
+              "direction shifts by k*dtheta modulo a full turn (Real.Angle), magnitudes/spread are unchanged, band integrals "
+              "rotate with them; mirroring (theta0 = 0) negates sine moments and the direction. Correspondence: point "
+              "functions (Float model), band means against exact rationals, rotation/mirror relations on the implementation."),
+        design="6/C03", technique="Lean 4 proof at ℝ (Finset re-indexing, Complex.arg / Real.Angle) + correspondence",
+        note=PROOF_NOTE + " Not shown: libm atan2/sqrt accuracy (1e-9 comparison); grids with 2*theta0/dtheta integer but theta0 != 0 for the mirror."),
+    "C04": dict(
+        text=("Lean 4 theorems: the scan returns an in-band index with a non-missing energy that is the maximum of the "
+              "in-band non-missing energies, and no earlier in-band index attains it (first maximum, ties to the lowest "
+              "index); it fails exactly when no in-band bin has a value; the index never leaves the band. Correspondence: "
+              "peak_index on multi-peaked, plateaued, NaN, zero-energy spectra x bands against the model; peak "
+              "frequency/period/direction/spread = values at that index and the dispersion residual of peak_wavenumber "
+              "on the implementation."),
+        design="6/C04", technique="Lean 4 proof (invariant of the argmax scan) + correspondence",
+        note=PROOF_NOTE + " Peak wavenumber tolerance is C07's sampled convergence clause."),
 }
 
 NOT_YET = "check not built yet in this session; see DESIGN.md section 9 (build order)"
